@@ -205,6 +205,8 @@ def fn(ck, a):
                     act = _feature(S[i])
                     if p_[2] == "C08.TotalUnderMutation":
                         act = "mutant:" + [m for m in S[i]["mut"] if m not in ("parsed", "bad")][0]
+                    elif p_[2] == "C08.BadReachesClient":
+                        act = "e2e"
                     viols.setdefault((p_[2], act), []).append(i)
                 elif p_ and p_[0] == "DONE":
                     done += 1
